@@ -29,6 +29,7 @@ theorem sim_pkgStep {lib : Lib} {ms ms1 : State} {ss : Spec.St} {id : Nat} {p : 
     cases hk : nd.kind with
     | imp _ => rfl
     | alias _ _ => rfl
+    | defn _ => rfl
     | inst pkg =>
       simp only
       have hmem := (indexedFrom_mem 0 ms.graph.nodes i nd).mp hx
